@@ -164,6 +164,21 @@ CHECKS["C06"] = {
     "note": TB + "; libraries as producible by the library (string values, failed blocks with raw text)",
 }
 
+CHECKS["C05"] = {
+    "text": "RoundTrip.tla states the round trip at token level: content of the parsed library (Interpolate!Parsed over "
+            "BibSplitter!Run) -> tokens written by the default write stack and the writer -> parsed again; MC_RoundTrip proves "
+            "for every document of up to 2 (quick: 1.3e3 documents) / 3 blocks over 36 templates per position (references, "
+            "nested braces, quotes around braces, concatenations, multi-line values, strings, preamble, comments) x 32 "
+            "token-level formats that the content is preserved, the written tokens are a fixpoint and stay in the dialect. "
+            "On the code, grammar-derived documents (constructive product, random derivations, reference-heavy documents; "
+            "only those the grammar recogniser accepts and whose parse conforms to Interpolate!Parsed) are taken through "
+            "parse -> write -> parse -> write for 4-8 of 128 formats (all 128 for a subset) and TLC checks per recorded round "
+            "trip Content(lib2) = Content(lib1) and s2 = s1 (Trace_Pipeline); conformance of the written text to Writer.tla and "
+            "of its parse to the specification is recorded as evidence, not as a C05 verdict.",
+    "ref": "6/C05", "technique": "TLA+ token-level round-trip spec model-checked with TLC + TLC validation of recorded round trips of the real entry points",
+    "note": TB + "; documents of the dialect with distinct keys; whitespace-only indent/separator",
+}
+
 NOT_APPLICABLE = {}
 for _e in ENGINES:
     _e["serves_properties"] = sorted(CHECKS)
